@@ -153,7 +153,7 @@ func checkC06(r *Run) {
 	// R4
 	r.RequireOnSuccess("C06-R4", "visor.Visor.executeSignedBlockUnsafe",
 		req("block executed", "ok(iface:visor.Blockchainer.ExecuteBlock($0.blockchain, $1, $2))"),
-		req("its transactions (the hashes of exactly the block's transactions) removed from the pool", "ok(iface:visor.UnconfirmedTransactionPooler.RemoveTransactions($0.unconfirmed, $1, fold[acc=make([]cipher.SHA256, 0*); append(acc, [coin.Transaction.Hash($2.Block.Body.Transactions[i])])]))", "ok(iface:visor.UnconfirmedTransactionPooler.RemoveTransactions($0.unconfirmed, $1, make([]cipher.SHA256, len($2.Block.Body.Transactions))))"),
+		req("its transactions (the hashes of exactly the block's transactions) removed from the pool", "ok(iface:visor.UnconfirmedTransactionPooler.RemoveTransactions($0.unconfirmed, $1, fold[acc=nil; append(acc, [coin.Transaction.Hash($2.Block.Body.Transactions[i])])]))", "ok(iface:visor.UnconfirmedTransactionPooler.RemoveTransactions($0.unconfirmed, $1, make([]cipher.SHA256, len($2.Block.Body.Transactions))))"),
 		req("history updated", "ok(iface:visor.Historyer.ParseBlock($0.history, $1, $2.Block))"))
 	// when the hash list is pre-sized and filled by index, every slot gets the hash of the transaction of the same index
 	if fn := r.P.Fn("visor.Visor.executeSignedBlockUnsafe"); fn != nil {
